@@ -28,7 +28,8 @@ import (
 )
 
 const (
-	prefixLen   = 115
+	prefixLen     = 115
+	longPrefixLen = 4026 // "long" variants: the prefix ends six blocks before the second retarget boundary (height 4032)
 	genesisTime = 1609459200 // 2021-01-01
 	walletSeed  = 7
 	walletKeys  = 12
@@ -60,6 +61,7 @@ type Cfg struct {
 	P              ledger.Params   `json:"params"`
 	Testnet        bool            `json:"testnet"`
 	Testnet4       bool            `json:"testnet4"` // test-net-4-like genesis: all rules active from height 1 inside NewChainExt
+	Long           bool            `json:"long,omitempty"` // 4026-block prefix: the history crosses the retarget boundary at height 4032
 	Blocks         []*ledger.Block `json:"blocks"`
 	Now0           int64           `json:"now0"`
 	CompressUTXO   bool            `json:"compress_utxo"`
@@ -73,6 +75,8 @@ type Cfg struct {
 	TimerP         float64         `json:"timer_p"`
 	MaxConsec      int             `json:"max_consec"`
 	SchedSeed      uint64          `json:"sched_seed"`
+	PCT            int             `json:"pct"`       // >0: priority scheduling with pct-1 priority change points
+	PCTSteps       int             `json:"pct_steps"`
 	CrashPoints    int             `json:"crash_points"` // C07: 0 = default subset, -1 = every effect
 	WalletMinVal   uint64          `json:"wallet_min_val"` // C17
 	WalletUseMap   uint32          `json:"wallet_use_map_cnt"`
@@ -101,7 +105,21 @@ func (c *Cfg) genesis() [32]byte {
 	return genesisHash
 }
 
+// plen is the length of the fixed prefix the case's blocks are built on.
+func (c *Cfg) plen() int {
+	if c.Long {
+		return longPrefixLen
+	}
+	return prefixLen
+}
+
 func (c *Cfg) net() int {
+	if c.Long {
+		if c.Testnet {
+			return 4
+		}
+		return 3
+	}
 	if c.Testnet4 {
 		return 2
 	}
@@ -132,6 +150,38 @@ func prefix(cfg *Cfg) []*ledger.Block {
 	m := &ledger.Miner{L: l, W: ledger.NewWallet(walletSeed, walletKeys), R: hx.NewRng(0xC0FFEE)}
 	var res []*ledger.Block
 	cur := l.Genesis
+	if cfg.Long {
+		// First period: 300 s apart, so that the retarget at height 2016 halves the target (the target is then
+		// below the limit and can move both ways).  Block 2016 is stamped 7000 s after its parent and the rest
+		// of the second period follows two seconds apart from the parent's time again (legal: above the median
+		// of the previous eleven), so the last prefix block is still stamped ~3000 s *before* block 2016: the
+		// timespan measured at height 4032 is negative, below a quarter, inside, or above four times two weeks
+		// depending only on the time stamps the case chooses for its own blocks.
+		base := uint32(genesisTime)
+		for i := 1; i <= longPrefixLen; i++ {
+			var t uint32
+			switch {
+			case i < 2016:
+				t = base + uint32(i)*300
+			case i == 2016:
+				t = base + 2015*300 + 7000
+			default:
+				t = base + 2015*300 + 2 + uint32(i-2017)*2
+			}
+			b, _ := m.Build(cur, ledger.BlockOpts{NTx: 0, Time: t})
+			if b.H.Time != t || b.H.Bits != l.ExpectedBits(cur, t) {
+				panic("long prefix: time stamp plan not realisable")
+			}
+			n := l.AddTrusted(b, false)
+			if n == nil {
+				panic("long prefix block not addable")
+			}
+			res = append(res, b)
+			cur = n
+		}
+		prefixCache[net] = res
+		return res
+	}
 	for i := 0; i < prefixLen; i++ {
 		b, _ := m.Build(cur, ledger.BlockOpts{NTx: 0})
 		n := l.Add(b, 1<<40)
@@ -149,8 +199,16 @@ func prefix(cfg *Cfg) []*ledger.Block {
 func newLedger(cfg *Cfg) (*ledger.Ledger, *ledger.Node) {
 	l := ledger.New(cfg.P, cfg.genesis())
 	cur := l.Genesis
-	for _, b := range prefix(cfg) {
-		n := l.Add(b, 1<<40)
+	pf := prefix(cfg)
+	for i, b := range pf {
+		var n *ledger.Node
+		if cfg.Long {
+			// validated once (by the node that builds the template directory, and header rules by prefix());
+			// only the last blocks keep an unspent map of their own
+			n = l.AddTrusted(b, i >= len(pf)-12)
+		} else {
+			n = l.Add(b, 1<<40)
+		}
 		if n == nil || !n.Valid() {
 			panic("prefix invalid under case parameters: " + n.Clause)
 		}
@@ -167,7 +225,9 @@ func (H) Gen(prop string, seed uint64, tier string) *hx.Case {
 		SaveTargetMs: []int{0, 50, 5000}[r.Intn(3)], SkipSave: uint32(r.Intn(4)), ClientRecovery: r.Chance(0.5),
 		MaxConsec: []int{50, 500, 5000}[r.Intn(3)], SchedSeed: r.U64()}
 	cfg.P = baseParams(cfg.Testnet)
-	if cfg.Testnet && r.Chance(0.6) {
+	if (prop == "C05" || prop == "C06") && r.Chance(0.25) {
+		cfg.Long = true // across the retarget boundary at height 4032 (every rule active from height 1)
+	} else if cfg.Testnet && r.Chance(0.6) {
 		cfg.Testnet4 = true // keeps every rule active from height 1
 	} else if r.Chance(0.5) {
 		// activation heights inside the explored window
@@ -196,6 +256,21 @@ func (H) Gen(prop string, seed uint64, tier string) *hx.Case {
 	}
 	l, tip := newLedger(cfg)
 	cfg.Now0 = int64(tip.Time) + int64(r.Range(0, 3000))
+	gap := 0
+	if cfg.Long {
+		// the node's clock (and with it the time stamps of the case's blocks) is ahead of the prefix by nothing,
+		// by less than a quarter of two weeks, by something in between, or by more than four times two weeks
+		const twoWeeks = 14 * 24 * 3600
+		switch r.Pick(25, 15, 35, 25) {
+		case 1:
+			gap = r.Range(1, twoWeeks/4)
+		case 2:
+			gap = r.Range(twoWeeks/4-4000, twoWeeks*4+4000)
+		case 3:
+			gap = r.Range(twoWeeks*4-4000, twoWeeks*5)
+		}
+		cfg.Now0 += int64(gap)
+	}
 	m := &ledger.Miner{L: l, W: ledger.NewWallet(walletSeed, walletKeys), R: r.Fork()}
 	// register the prefix scripts with the wallet (same wallet seed => same scripts; walk the outputs)
 	registerPrefixScripts(m.W, cfg.Testnet)
@@ -203,6 +278,9 @@ func (H) Gen(prop string, seed uint64, tier string) *hx.Case {
 	nblocks := r.Range(4, 36)
 	if r.Chance(0.25) {
 		nblocks = r.Range(2, 8)
+	}
+	if cfg.Long {
+		nblocks = r.Range(8, 26)
 	}
 	fanout := prop == "C11" || (prop == "C17" && r.Chance(0.3))
 	if prop == "C11" {
@@ -235,7 +313,7 @@ func (H) Gen(prop string, seed uint64, tier string) *hx.Case {
 		switch r.Pick(60, 22, 12, 6) {
 		case 1: // fork below the best tip
 			d := uint32(r.Range(1, 6))
-			if a := best.Ancestor(best.Height - d); a != nil && a.Height >= prefixLen-1 {
+			if a := best.Ancestor(best.Height - d); a != nil && int(a.Height) >= cfg.plen()-1 {
 				parent = a
 			}
 		case 2: // extend some other node
@@ -289,6 +367,10 @@ func (H) Gen(prop string, seed uint64, tier string) *hx.Case {
 		case 2:
 			o.Time = parent.Time + 1201 + uint32(r.Intn(600))
 		}
+		if gap > 0 && int64(parent.Time) < cfg.Now0-8000 && r.Chance(0.8) {
+			// the first block after the gap carries the new era's time (some branches stay in the old era)
+			o.Time = uint32(cfg.Now0 - int64(r.Range(0, 3000)))
+		}
 		if mut == "merkle-dup" {
 			o.NTx = []int{2, 4, 5, 5, 9, 11, 13}[r.Intn(7)] // transaction counts whose tree has an odd level above the leaves, too
 		}
@@ -323,11 +405,36 @@ func (H) Gen(prop string, seed uint64, tier string) *hx.Case {
 			best = n
 		}
 	}
-	if (prop == "C06" || prop == "C07") && r.Chance(0.3) && best.Height > prefixLen+1 {
+	if cfg.Long && cfg.Testnet && prop == "C06" && r.Chance(0.5) && int(best.Height) > cfg.plen()+2 {
+		// a longer-but-lighter branch: minimum-difficulty blocks (test-net rule, stamped more than twenty minutes
+		// after their parents) outnumber the blocks of the active chain above the fork but carry less work
+		d := uint32(r.Range(1, 3))
+		if fork := best.Ancestor(best.Height - d); fork != nil && int(fork.Height) >= cfg.plen() && fork.Bits != cfg.P.PowLimitBits {
+			cur := fork
+			for j := 0; j < int(d)+1+r.Intn(2); j++ {
+				b, ok := m.Build(cur, ledger.BlockOpts{NTx: r.Intn(3), Time: cur.Time + 1201 + uint32(r.Intn(100))})
+				if !ok {
+					break
+				}
+				n := l.Add(b, 1<<40)
+				if n == nil || !n.Valid() {
+					break
+				}
+				b.Label = "light-branch"
+				cfg.Blocks = append(cfg.Blocks, b)
+				made = append(made, n)
+				cur = n
+				if n.CumWork.Cmp(best.CumWork) > 0 {
+					best = n
+				}
+			}
+		}
+	}
+	if (prop == "C06" || prop == "C07") && r.Chance(0.3) && int(best.Height) > cfg.plen()+1 {
 		// a side branch that outgrows the active chain but whose j-th block (j>=2) is invalid only in context:
 		// the reorganisation connects j-1 of its blocks, fails, and must end on the most-work valid chain again
 		d := uint32(r.Range(1, 3))
-		if fork := best.Ancestor(best.Height - d); fork != nil && fork.Height >= prefixLen {
+		if fork := best.Ancestor(best.Height - d); fork != nil && int(fork.Height) >= cfg.plen() {
 			cur, bad := fork, r.Range(2, int(d)+1)
 			for j := 1; j <= int(d)+1+r.Intn(2); j++ {
 				o := ledger.BlockOpts{NTx: r.Range(1, 4)}
@@ -418,7 +525,11 @@ func (H) Gen(prop string, seed uint64, tier string) *hx.Case {
 		case 1:
 			add(Op{Op: "idle"})
 		case 2:
-			add(Op{Op: "tick", Ms: r.Range(1, 20000)})
+			if cfg.Long && r.Chance(0.5) {
+				add(Op{Op: "tick", Ms: r.Range(60_000, 1_500_000)}) // the clock keeps up with ten-minute blocks
+			} else {
+				add(Op{Op: "tick", Ms: r.Range(1, 20000)})
+			}
 		case 3:
 			add(Op{Op: "save"})
 		case 4:
@@ -468,6 +579,9 @@ func templateDir(cfg *Cfg) string {
 	if base == "" {
 		base = os.TempDir()
 	}
+	if sh := os.Getenv("VSIM_SHARED"); sh != "" && cfg.Long {
+		base = sh // expensive to build: shared by the child processes of one check
+	}
 	return fmt.Sprintf("%s/chain-template-n%d-c%v-b%v", base, cfg.net(), cfg.CompressUTXO, cfg.CompressBlocks)
 }
 
@@ -478,12 +592,20 @@ func ensureTemplate(cfg *Cfg, out *hx.Outcome) string {
 	if _, err := os.Stat(filepath.Join(td, "ok")); err == nil {
 		return td
 	}
+	final := td
+	td = fmt.Sprintf("%s.tmp%d", final, os.Getpid())
 	os.RemoveAll(td)
 	os.MkdirAll(td, 0770)
 	writeGenesisSnapshot(td, cfg.genesis(), cfg.CompressUTXO)
 	var fail string
-	res := simrt.Run(simrt.Config{Seed: 1, YieldP: 0, MaxConsec: 1 << 30}, func() {
-		simrt.Sleep(time.Unix(genesisTime+int64(prefixLen+1)*600, 0).Sub(time.Now()))
+	clock := int64(genesisTime + (prefixLen+1)*600)
+	for _, b := range prefix(cfg) {
+		if int64(b.H.Time) > clock {
+			clock = int64(b.H.Time)
+		}
+	}
+	res := simrt.Run(simrt.Config{Seed: 1, YieldP: 0, MaxConsec: 1 << 30, StepBudget: 1 << 40}, func() {
+		simrt.Sleep(time.Unix(clock, 0).Sub(time.Now()))
 		n := Boot(td, NodeOpts{P: baseParams(cfg.Testnet), Genesis: cfg.genesis(), CompressBlocks: cfg.CompressBlocks, CacheBlocks: 10, LibraryTail: cfg.Testnet4})
 		for i, b := range prefix(cfg) {
 			if err, st, _ := n.Deliver(b.Bytes()); err != nil {
@@ -498,7 +620,14 @@ func ensureTemplate(cfg *Cfg, out *hx.Outcome) string {
 		os.Exit(2)
 	}
 	os.WriteFile(filepath.Join(td, "ok"), []byte("ok"), 0660)
-	return td
+	if err := os.Rename(td, final); err != nil {
+		os.RemoveAll(td) // another child process has finished the same template first
+		if _, err := os.Stat(filepath.Join(final, "ok")); err != nil {
+			fmt.Fprintln(os.Stderr, "chainsim: cannot put the template directory in place:", err)
+			os.Exit(2)
+		}
+	}
+	return final
 }
 
 // ---------------------------------------------------------------- run
@@ -519,6 +648,7 @@ type run struct {
 	bad     bool
 	lastSaveHeight uint32
 	failedReorg bool
+	lenientTip  bool
 	hookLog     []hookEvent
 	everPaid    map[string]bool
 	delivAt     map[[32]byte]int // effect-log length when the block was first handed to the node
@@ -547,6 +677,19 @@ func (r *run) compareState(when string) {
 		return
 	}
 	th, theight := r.n.Tip()
+	if r.lenientTip {
+		// re-feeding after a crash: which of its stored blocks the node has connected so far depends on the
+		// order in which reorganisations get triggered; only consistency is required here (C07 judges the final state)
+		tn := r.l.Nodes[th]
+		if tn == nil || !tn.Valid() {
+			r.viol("tip.invalid", "%s: the node's tip %s (height %d) is not a valid block of the history", when, hs(th), theight)
+			return
+		}
+		r.model = tn
+		r.failedReorg = false
+		r.compareUTXO(when)
+		return
+	}
 	if th != r.model.Hash && r.failedReorg {
 		// a reorganisation has just failed on an invalid block: gocoin re-selects its tip with
 		// FindFarthestNode, whose tie-break among equal-work branches is child order (random after a restart)
@@ -667,6 +810,25 @@ func (r *run) deliver(bi int, when string) {
 		}
 		r.status[hh] = 1
 		r.out.Probe("accepted", 1)
+		if ln.Height%2016 == 0 && ln.Parent != nil {
+			if first := ln.Parent.Ancestor(ln.Parent.Height - 2015); first != nil {
+				const twoWeeks = 14 * 24 * 3600
+				span := int64(ln.Parent.Time) - int64(first.Time)
+				switch {
+				case span < 0:
+					r.out.Probe("retarget_block_accepted:timespan_negative", 1)
+				case span < twoWeeks/4:
+					r.out.Probe("retarget_block_accepted:timespan_below_quarter", 1)
+				case span <= twoWeeks*4:
+					r.out.Probe("retarget_block_accepted:timespan_inside", 1)
+				default:
+					r.out.Probe("retarget_block_accepted:timespan_above_4x", 1)
+				}
+			}
+		}
+		if ln.Bits != r.cfg.P.PowLimitBits && ln.Parent != nil && ln.Parent.Bits != ln.Bits {
+			r.out.Probe("accepted_block_changes_target", 1)
+		}
 		if len(blk.Label) > 3 && blk.Label[:3] == "ok-" {
 			r.out.Probe("accepted_boundary:"+blk.Label, 1)
 		}
@@ -798,6 +960,12 @@ func (r *run) advanceModel(ln *ledger.Node) {
 		if !n.Valid() || r.status[n.Hash] != 1 {
 			return
 		}
+		if n.Height > r.model.Height && n.CumWork.Cmp(r.model.CumWork) <= 0 {
+			r.out.Probe("longer_but_not_heavier_branch_ignored", 1)
+		}
+		if n.Height <= r.model.Height && n.CumWork.Cmp(r.model.CumWork) > 0 {
+			r.out.Probe("shorter_or_equal_but_heavier_branch_wins", 1)
+		}
 		if n.CumWork.Cmp(r.model.CumWork) > 0 {
 			if n.Parent != r.model {
 				r.out.Probe("reorg", 1)
@@ -858,7 +1026,7 @@ func (H) Run(t *testing.T, c *hx.Case) *hx.Outcome {
 	}
 	r.now = cfg.Now0
 
-	scfg := simrt.Config{Seed: cfg.SchedSeed, YieldP: cfg.YieldP, TimerP: cfg.TimerP, MaxConsec: cfg.MaxConsec, StepBudget: 30_000_000}
+	scfg := simrt.Config{Seed: cfg.SchedSeed, YieldP: cfg.YieldP, TimerP: cfg.TimerP, MaxConsec: cfg.MaxConsec, StepBudget: 30_000_000, PCT: cfg.PCT, PCTSteps: cfg.PCTSteps}
 	res := simrt.Run(scfg, func() {
 		simrt.Sleep(time.Unix(cfg.Now0, 0).Sub(time.Now()))
 		if prop == "C11" || prop == "C07" {
